@@ -20,7 +20,9 @@
    The model's [sleepers] field is bookkeeping of the goroutines started: it is tied to
    the list of goroutines the generated Set returns.
 
-   Each theorem: related states, same inputs  ==>  same result and related states. *)
+   Each theorem: related states, same inputs  ==>  same result and related states.
+   After the Section: Examples on K := str showing that R relates NON-EMPTY states reached
+   through the generated functions (C12_gen_R_nonempty) and what the squares say there. *)
 From Coq Require Import List ZArith Bool Lia.
 From Verif Require Import Lib.GoSem C12.Model C12.Proofs C12.Gen.
 Import ListNotations.
@@ -225,6 +227,90 @@ Section GenEquiv.
     R None (Gen.NewMemoryCache K V clk) empty.
   Proof. constructor; cbn; auto; try discriminate. intros k. reflexivity. Qed.
 End GenEquiv.
+
+(* ---------------- the relation is inhabited beyond the empty cache ---------------- *)
+
+(* A concrete instance: K := str (the URL strings of the suites), V := Z, == on K := str_eqb,
+   size of an item := length of its key + 1.  NewMemoryCache, WithMaxCacheSize(size, 10), then
+   Set("a", 42, 3 s) at clock 1000 and Set("bb", 43, 5 s) at clock 2000. *)
+Definition gex_sz (k : str) (_ : Z) : Z := Z.of_nat (length k) + 1.
+Definition gex_ka : str := [97].
+Definition gex_kb : str := [98; 98].
+Definition gex_kc : str := [99; 99; 99; 99; 99; 99].
+
+(* the generated cache after the two Sets: Go's map as the translator keeps it, first stored first *)
+Definition gex_g : Gen.MemoryCache str Z :=
+  mk_MemoryCache str Z
+    [(gex_ka, mk_ValueWrapper Z 42 3000001000); (gex_kb, mk_ValueWrapper Z 43 5000002000)]
+    true 10 5 (Some gex_sz).
+
+(* the model cache after the same two Sets (ids 1, 2): last stored first, two pending sleepers *)
+Definition gex_c : cache str Z :=
+  {| store := [(gex_kb, {| e_val := 43; e_exp := 5000002000 |});
+               (gex_ka, {| e_val := 42; e_exp := 3000001000 |})];
+     csize := 5;
+     sleepers := [(1, gex_ka); (2, gex_kb)] |}.
+
+(* the two runs end in these states (computation) … *)
+Example C12_gen_example_runs :
+  (match Gen.Set_ str str_eqb Z
+           (Gen.WithMaxCacheSize str Z (Gen.NewMemoryCache str Z tt) (Some gex_sz) 10)
+           gex_ka 42 3 1000 with
+   | Normal g1 (ErrNil, [_]) => Gen.Set_ str str_eqb Z g1 gex_kb 43 5 2000
+   | _ => Panicked (Gen.NewMemoryCache str Z tt)
+   end = Normal gex_g (ErrNil, [mk_Set__go_args str gex_kb 5000000000])) /\
+  (let '(c1, ok1) := set_ str_eqb gex_sz (Some 10) 1 gex_ka 42 3000000000 1000 (@empty str Z) in
+   let '(c2, ok2) := set_ str_eqb gex_sz (Some 10) 2 gex_kb 43 5000000000 2000 c1 in
+   (c2, ok1, ok2)) = (gex_c, true, true).
+Proof. split; vm_compute; reflexivity. Qed.
+
+(* … and they are related: R holds of a pair of NON-EMPTY states whose two lists differ in
+   order (the reason R is extensional in the key).  Obtained from the squares themselves:
+   NewMemoryCache, WithMaxCacheSize, Set, Set. *)
+Example C12_gen_R_nonempty :
+  R str Z str_eqb gex_sz (Some 10) gex_g gex_c /\
+  MemoryCache_cache str Z gex_g <> [] /\ store gex_c <> [] /\
+  map fst (MemoryCache_cache str Z gex_g) <> map fst (store gex_c).
+Proof.
+  split; [|repeat split; discriminate].
+  pose proof (C12_gen_WithMaxCacheSize str Z str_eqb gex_sz None _ _ 10
+                (C12_gen_NewMemoryCache str Z str_eqb gex_sz tt)) as R0.
+  pose proof (C12_gen_Set str Z str_eqb gex_sz str_eqb_spec _ _ _ 1 gex_ka 42 3 1000 R0) as S1.
+  vm_compute in S1. destruct S1 as (g1 & e1 & s1 & E1 & R1 & _).
+  injection E1 as <- _ _.
+  pose proof (C12_gen_Set str Z str_eqb gex_sz str_eqb_spec _ _ _ 2 gex_kb 43 5 2000 R1) as S2.
+  vm_compute in S2. destruct S2 as (g2 & e2 & s2 & E2 & R2 & _).
+  injection E2 as <- _ _.
+  exact R2.
+Qed.
+
+(* the squares applied to that non-empty pair: a fresh hit, a miss 1 ns after the expiry, a
+   refused Set (6 + 1 bytes do not fit in 10 - 5) that starts no goroutine, and the first
+   sleeper firing — each time the generated function and the model agree, with the values
+   shown *)
+Example C12_gen_squares_on_nonempty :
+  Gen.Get str str_eqb Z 0 gex_g gex_ka 3000001000 = (42, true) /\
+  get str_eqb gex_c gex_ka 3000001000 = Some 42 /\
+  Gen.Get str str_eqb Z 0 gex_g gex_ka 3000001001 = (0, false) /\
+  get str_eqb gex_c gex_ka 3000001001 = None /\
+  Gen.Has str str_eqb Z 0 gex_g gex_kb 3000001001 = true /\
+  Gen.Set_ str str_eqb Z gex_g gex_kc 44 1 3000 = Normal gex_g (Err err_full, []) /\
+  set_ str_eqb gex_sz (Some 10) 3 gex_kc 44 1000000000 3000 gex_c = (gex_c, false) /\
+  exists g', Gen.Set__go str str_eqb Z 0 gex_g gex_ka 3000000000 = Normal g' tt /\
+             R str Z str_eqb gex_sz (Some 10) g'
+               (fst (step str_eqb gex_sz (Some 10) gex_c (OFire 1 gex_ka))) /\
+             MemoryCache_currentCacheSize str Z g' = 3 /\
+             map fst (MemoryCache_cache str Z g') = [gex_kb].
+Proof.
+  destruct C12_gen_R_nonempty as (HR & _).
+  pose proof (C12_gen_Get str Z str_eqb 0 gex_sz _ _ _ gex_ka 3000001000 HR) as G1.
+  pose proof (C12_gen_Get str Z str_eqb 0 gex_sz _ _ _ gex_ka 3000001001 HR) as G2.
+  repeat (split; [first [exact G1 | exact G2 | vm_compute; reflexivity]|]).
+  destruct (C12_gen_sleeper str Z str_eqb 0 gex_sz str_eqb_spec _ _ _ 1 gex_ka 3000000000
+              [(2, gex_kb)] HR eq_refl) as (g' & E & HR' & _).
+  exists g'. split; [exact E|]. split; [exact HR'|].
+  vm_compute in E. injection E as <-. split; reflexivity.
+Qed.
 
 Print Assumptions C12_gen_Get.
 Print Assumptions C12_gen_Has.
